@@ -163,6 +163,20 @@ def fallback_chain(prog, sc, node, depth=0):
     n = strip(node)
     if depth > 6:
         return [_short(origin_desc(n))]
+    if n[0] == "var":
+        # `let x = match opt { Some(v) => v, None => fallback };` (or if-let): a local with two definitions, one of them the payload of an Option
+        defs = []
+        for d in sc.body.defs().get(n[1], []):
+            if d[0] == "st" and isinstance(d[3]["p"], int):
+                defs.append(strip(sc.rvalue(d[3]["rv"])))
+            elif d[0] != "st":
+                defs.append(strip(sc._rw(sc.eb.call_node(d[2], d[1]))))
+        pay = [d for d in defs if d[0] == "proj" and len(d[2]) >= 2 and tuple(d[2][-2:]) == ("@Some", ".0")]
+        if len(defs) == 2 and len(pay) == 1:
+            other = [d for d in defs if d is not pay[0]][0]
+            from .exprs import mkproj
+            opt = mkproj(strip(pay[0][1]), tuple(pay[0][2][:-2])) if len(pay[0][2]) > 2 else strip(pay[0][1])
+            return fallback_chain(prog, sc, opt, depth + 1) + fallback_chain(prog, sc, other, depth + 1)
     if n[0] == "call":
         nm = short_callee(n[1])
         if nm in ("unwrap_or", "or", "unwrap_or_default") and ("Option" in n[1] or "Result" in n[1]):
